@@ -107,9 +107,9 @@ def units(tier, seed):
         step = max(1, n3 // 96)
         for i in range(0, n3, step):
             us.append(('ex3', i, min(n3, i + step)))
-    for i in range(16 if tier == 'quick' else 96):
+    for i in range(16 if tier == 'quick' else 480):
         us.append(('random', i))
-    for i in range(8 if tier == 'quick' else 32):
+    for i in range(8 if tier == 'quick' else 160):
         us.append(('macro', i))
     return us
 
